@@ -293,7 +293,8 @@ def validate(ctx, trace):
                 cur = byk.get(sc[0]["kind"])
                 if cur is None or len(sc) < len(cur):
                     byk[sc[0]["kind"]] = sc
-            reps += [byk[kk] for kk in sorted(byk)][:3]
+            if len(reps) < 16:
+                reps += [byk[kk] for kk in sorted(byk)][:2]
         p = os.path.join(ctx.scratch, "suspects.ndjson")
         write_scenarios(p, reps)
         vlib.validate_traces(sctx, TRACE, p, TRACE_INVS, "C18_", constants=DUMMY, properties=TRACE_PROPS, timeout=1500, heap="4g", workers=2)
